@@ -88,6 +88,7 @@ func runUgm(c ugmCase) (msg string, labels []string, nontrivial bool) {
 	var lim *harness.LimitRef
 	apps := map[string]*ugmApp{}
 	reloads, changedWithUsage := 0, false
+	groupTaint, appTaint := map[string]bool{}, map[string]bool{}
 	usage := func(u, p string) harness.Res {
 		out := harness.Res{}
 		for _, a := range apps {
@@ -130,8 +131,23 @@ func runUgm(c ugmCase) (msg string, labels []string, nontrivial bool) {
 					}
 				}
 			}
+			before := &harness.Snapshot{}
+			harness.SnapTrackers(before)
 			if err := m.UpdateConfig(conf.Partitions[0].Queues[0], "root"); err != nil {
 				return fmt.Sprintf("%s: accepted configuration refused by the user group manager: %v", where, err), keys(lab), nontrivial
+			}
+			if lim != nil && harness.Excluded(harness.GroupUsageLostShape) {
+				// listed known finding: the tracked usage of a group that lost a limit is not compared from here on
+				for _, g := range harness.DroppedGroupLimits(lim, newLim) {
+					groupTaint[g] = true
+					for _, ut := range before.Users {
+						for app, ag := range ut.AppGroups {
+							if ag == g {
+								appTaint[app] = true
+							}
+						}
+					}
+				}
 			}
 			lim = newLim
 			reloads++
@@ -281,6 +297,13 @@ func runUgm(c ugmCase) (msg string, labels []string, nontrivial bool) {
 				}
 			}
 		}
+		for _, ut := range snap.Users {
+			for app, ag := range ut.AppGroups {
+				if ag != "" && appTaint[app] {
+					groupTaint[ag] = true
+				}
+			}
+		}
 		for _, g := range harness.SortedKeys(snap.Groups) {
 			t := snap.Groups[g]
 			for _, p := range harness.SortedKeys(t.Usage) {
@@ -291,6 +314,23 @@ func runUgm(c ugmCase) (msg string, labels []string, nontrivial bool) {
 				}
 				if got := t.MaxApps[p]; got != wantApps {
 					return fmt.Sprintf("%s: group %s reports maximum applications %d in %s, the latest configuration says %d", where, g, got, p, wantApps), keys(lab), nontrivial
+				}
+				// tracked usage of the group: the booked usage of the applications the manager links to the group
+				want := harness.Res{}
+				for id, a := range apps {
+					if ut := snap.Users[a.user]; ut != nil && ut.AppGroups[id] == g && (a.queue == p || strings.HasPrefix(a.queue, p+".")) {
+						want.AddIn(a.usage)
+					}
+				}
+				if groupTaint[g] {
+					lab["group-usage-skipped-known-finding"] = true
+					continue
+				}
+				if got := t.Usage[p]; !got.Eq(want) {
+					return fmt.Sprintf("%s: group %s tracked usage in %s is %s, booked usage of the applications linked to the group is %s", where, g, p, got, want), keys(lab), nontrivial
+				}
+				if !want.IsZero() {
+					lab["group-usage-compared"] = true
 				}
 			}
 		}
